@@ -9,6 +9,8 @@ Oracle: the clauses of the property evaluated on the three returned objects only
        an exact integer reference geometry with tolerances derived from conditioning (`metric_oracle`), and in the streams
        `absolute-scale` / `far-offset` (the main-loop meshes scaled by 2^e / translated far from the origin) together with the
        metamorphic relation "same facets, incidence, signs, normals and (scaled) areas as at unit scale near the origin".
+       Stream `warped-layers`: thin layered hexahedra whose shared faces are skew quads warped by more than half the cell
+       thickness (sign / opposite-sign / closure clauses; exact convexity tests; hypothesis of C12_hex_sign_meanplane).
 """
 import math
 from fractions import Fraction as F
@@ -23,12 +25,20 @@ PROP = 'C12'
 LEAN_MODULES = ['Femio.Props.C12']
 THEOREMS = ['C12_structure', 'C12_structure_count', 'C12_tet_sign', 'C12_hex_sign_convex', 'C12_mirror_sign',
             'C12_area_sum_zero', 'C12_divergence', 'C12_normal_is_area_vector', 'C12_similarity_area', 'C12_similarity_sign',
-            'C12_affine_sign']
+            'C12_affine_sign', 'C12_hex_sign_meanplane', 'C12_first_node_reference_counterexample', 'C12_planar_reference_point']
 PARTIAL = [
     'C12_hex_sign_convex needs convexity as an explicit hypothesis (every cell vertex on the inner side of the '
     'facet plane); for tetrahedra the sign is derived from positivity of the volume alone (C12_tet_sign)',
     'C12_divergence for hexahedra needs planarity of each face as an explicit hypothesis; the facet area is the norm '
     'of the vector area, which equals femio\'s scalar "centroid" area only for planar facets',
+    'hexahedra with SKEW faces: C12_hex_sign_convex is vacuous there (two vertices of a skew face lie outside the plane through its centre); '
+    'C12_hex_sign_meanplane proves the sign under the explicit hypothesis that the four cell vertices NOT on the face lie on the inner side of the '
+    'MEAN plane of the face (through the vertex mean, perpendicular to the vector area); the hypothesis is evaluated exactly per cell by the '
+    'model (c12.meanplane) and by the harness on every mesh of the stream `warped-layers`; that convexity of the cell (its hull has the cell\'s '
+    'faces, skew ones folded along a diagonal) implies the (sufficient, strict) mean-plane hypothesis is NOT proved and not true in general '
+    '(hull-convex cells with a small opposite face under a high corner of a skew face violate it; a random search of 60000 such cells found none '
+    'whose centre-based sign is wrong) - so clauses on skew-faced cells are asserted only where BOTH hold; the divergence / area clauses '
+    'are not stated for skew faces and are not asserted there',
     'square roots / normalisation of normals are not modelled: the model works with un-normalised area vectors',
     'floating point is not modelled: in exact arithmetic the clauses are invariant under x -> s x + t (C12_similarity_area, '
     'C12_similarity_sign), so the model cannot see the clamp of functions.normalize on small facets or cancellation far from the origin; '
@@ -71,6 +81,24 @@ RULE = ('seeded conforming tet or hex meshes from harness/meshgen.gen_geometric 
         'coordinates; judged by the structure clauses, the D tie to the exact model (facet rows, incidence, signs, theorem hypotheses) and the '
         'metric clauses against the exact integer reference with LOCAL conditioning tolerances (length = diameter of the facet / cell itself: '
         'relative to the largest cell a tolerance judges nothing on the small cells); '
+        'stream `warped-layers` (inside the quantifier under the reading of "convex" for cells with skew faces stated in ASSUMPTIONS; 32 quick / '
+        '320 thorough cases): 1..3 x 1..3 x 2..3 (thorough ..4) hexahedra in layers of thickness tau x lateral spacing (tau cycled through 1/8 1/4 '
+        '1/16 1/2 1/128 1 1/32 1/1024; style `decimal`, every 4th case: 1/10 1/20 3/10 1/100) whose node layers are displaced along the stacking '
+        'axis by `ratio` x layer thickness (3/4 7/8 5/8 1/4 13/16 9/16 15/16 1/2; decimal 0.7 0.9 0.6 0.2) in the patterns `alternating` (+-w '
+        'checkerboard: every face between two layers is a skew quad whose corners are +-w off its mean plane, w > half the cell thickness), `random` '
+        '(multiples of w/2 per node), `peak` (one node per layer), `+outer` (outer node layers displaced too: skew BOUNDARY facets), `+inplane` '
+        '(lateral jitter: skew lateral faces), the same pattern on all layers (60 %) or independent ones; amplitudes halved until every cell is '
+        'positive, hull-convex and mean-plane convex (exact rational test hex_cell_flags); voids, unreferenced nodes, arbitrary ids / storage order / '
+        'layout; mapped by an exact INTEGER map (signed axis permutation x identity / shear / 3 x, 5 x, 7 x a rotation), dyadic offset and scale, so '
+        'the coordinates are exact float64 values (decimal style: axis map, the mesh is DEFINED by the rounded coordinates); non-trivial = some face '
+        'vertex is further from the mean plane of its face than the cell centre (lever > 1: another reference point than the face centre flips the '
+        'sign); judged by the structure clauses (interior facet: two cells, opposite signs), the closure clause in exact integer arithmetic on EVERY '
+        'cell (sign x exact vector area in the direction of the returned normal sums to zero - this is what constrains the sign of skew boundary '
+        'facets), the D tie to the exact model (facet rows, incidence, signs, hypotheses incl. the per-cell hypothesis of C12_hex_sign_meanplane, '
+        'command c12.meanplane), unit normals on every facet, and the planar-face clauses (normal perpendicular, area, closure of area x normal, '
+        'divergence = volume) on the exactly planar facets / the cells all of whose facets are exactly planar; '
+        'stream `square-shapes` (8 quick / 80 thorough): a generator mesh padded with unreferenced nodes until n_node == n_cell (Kuhn tets) or '
+        'n_node == n_facet, so that the node-cell / node-facet incidence matrices are square; judged like a main-loop case; '
         'dimension `layout` (a storage detail of the same mesh): every third case of the streams ids-pow2 / int-coords / extreme-geometry hands '
         'femio ids and connectivity as int32 / uint32 / uint64 / int16 / uint16 / uint8 (when the values fit) and all arrays Fortran-ordered / as '
         'transposed views / as non-contiguous slices of larger arrays / read-only')
@@ -78,6 +106,13 @@ ASSUMPTIONS = [
     'cells are convex and non-overlapping (generator: positive affine images of bricks, jitter accepted only if every '
     'face-fan sub-tet stays positive); the model decides `faceDeterminedB`, `ownNodesB`, `distinctKeysB`, '
     '`mirrorConformingB` per mesh',
+    'reading of "convex hex cell" for cells with skew (non-planar) faces - the statement singles out "planar-faced cells" for the volume identity, '
+    'so cells with skew faces are inside the quantifier of the other clauses, although no trilinear cell with a skew face is a convex SET: a cell '
+    'is taken as convex when its 8 vertices are in convex position and each of its faces is a face of their convex hull (a skew face folded along '
+    'one diagonal), decided in exact rational arithmetic (hex_cell_flags.hull); the stream `warped-layers` asserts only on meshes all of whose '
+    'cells are positive, hull-convex AND satisfy the hypothesis of C12_hex_sign_meanplane strictly (generator: amplitudes halved until they do; '
+    'replay files that do not are classified, not asserted); the area vector of a skew facet in the closure clause is its vector area 1/2 d1 x d2 '
+    '(= area x normal for a planar facet; femio\'s quad normal is its direction: C12_normal_is_area_vector), oriented by the returned normal',
     'the dtype of the node array (float64 / int64) is a storage detail of a conforming mesh: integer-coordinate meshes are inside '
     'the quantifier and are built directly with an int64 FEMAttribute (not through the float-only meshgen.to_femio); so are the integer dtype '
     'of ids / connectivity and the memory layout of every array (dimension `layout`)',
@@ -381,17 +416,22 @@ def exact_ref(m, facets):
                 risk[e] = max(risk.get(e, 0.0), (EPS52 * lface * lface / (r2 / (2 * Df * Df)) * rl + EPS52 * P) / mg if mg else float('inf'))
         vol[e] = v72 / (72 * D ** 3)
         defect[e] = abs((d72 - v72) / (72 * D ** 3))
+    # exactly planar facets (triangles; quads with det(b - a, c - a, d - a) = 0 on the float64 coordinates femio holds)
+    flat = np.array([len(f) == 3 or U.det3(*[tuple(x - y for x, y in zip(X[q], X[f[0]])) for q in f[1:]]) == 0 for f in facets], dtype=bool)
     return {'P': P, 'L': L, 'kappa': max(P / L, 1.0), 'A': A, 'unit': unit, 'vol': vol, 'defect': defect, 'margin': margin,
-            'in_range': 2 * A >= RAW_NORMAL_MIN, 'lf': lf, 'lc': lc, 'sign_risk': risk}
+            'in_range': 2 * A >= RAW_NORMAL_MIN, 'lf': lf, 'lc': lc, 'sign_risk': risk, 'S2': S2, 'planar': flat}
 
 
-def metric_oracle(ctx, m, obs, case, planar, rows, ref=None, label='', local=False):
+def metric_oracle(ctx, m, obs, case, planar, rows, ref=None, label='', local=False, planar_mask=None):
     """metric clauses against the exact reference; `rows` from structure_oracle.  Every assertion is a clause of the property
     (area x normal is the area vector of the facet: the normal is a unit vector perpendicular to the facet and the area is the
     facet's area; closure; divergence) with a tolerance that follows from the conditioning of the clause (ASSUMPTIONS).
     `local`: the length in the tolerance is the diameter of the facet / cell itself instead of the longest edge of the mesh (on a
     graded mesh a tolerance relative to the largest cell is an absolute tolerance for the small ones and judges nothing there);
-    elsewhere the local ratios are recorded as a diagnostic only."""
+    elsewhere the local ratios are recorded as a diagnostic only.
+    `planar_mask` (per facet, exact): the clauses the property states for planar faces (normal perpendicular to the facet, area, and - on
+    cells ALL of whose facets are planar - closure of area x normal and the divergence identity) are asserted on those facets / cells only;
+    the unit length of the normal is asserted on every facet."""
     R = obs['_ref'] = ref or obs.get('_ref') or exact_ref(m, obs['facets'])
     L, kap, P = R['L'], R['kappa'], R['P']
     lf = R['lf']
@@ -426,6 +466,8 @@ def metric_oracle(ctx, m, obs, case, planar, rows, ref=None, label='', local=Fal
         return
     if not planar:
         return
+    if planar_mask is not None:
+        ok = ok & np.asarray(planar_mask, dtype=bool)
     par = np.einsum('ij,ij->i', n, R['unit'])
     off = np.abs(n - par[:, None] * R['unit']).max(axis=1)
     _worst(pre + 'normal-direction', off, tn, ok)
@@ -472,7 +514,8 @@ def metric_oracle(ctx, m, obs, case, planar, rows, ref=None, label='', local=Fal
             _worst('local(diagnostic):divergence', abs(d - R['vol'][e]), float(g3c[i]) + R['defect'][e])
     if local:
         ctx.count(f'{label}:cells with both metric identities asserted', n_cells)
-        ctx.count(f'{label}:cells touching a facet below the clamp-free range (identities not asserted)', len(obs['cells']) - n_cells)
+        ctx.count(f'{label}:cells touching a facet below the clamp-free range' + (' or a skew facet' if planar_mask is not None else '')
+                  + ' (identities not asserted)', len(obs['cells']) - n_cells)
     ctx.count('metric-oracle:cases' + (':' + label if label else ''))
 
 
@@ -821,6 +864,274 @@ def extreme_case(ctx, m, replaying=False):
     return obs if len(ctx.failures) == n0 else None
 
 
+# ---------------------------------------------------------------------------------------------------------------------
+# stream `warped-layers`: hexahedra with SKEW faces whose warp is a large fraction of the local cell thickness
+# ---------------------------------------------------------------------------------------------------------------------
+INT_MAPS = {          # exact integer maps with positive determinant (multiples of rotations / a shear): everything stays exact in float64
+    'axis': [[1, 0, 0], [0, 1, 0], [0, 0, 1]],
+    'shear': [[4, 1, -2], [0, 4, 3], [0, 0, 4]],
+    '3rot': [[2, -1, 2], [2, 2, -1], [-1, 2, 2]],
+    '5rot': [[3, -4, 0], [4, 3, 0], [0, 0, 5]],
+    '7rot': [[2, 3, 6], [6, 2, -3], [-3, 6, -2]],
+}
+WARP_TAUS = [F(1, 8), F(1, 4), F(1, 16), F(1, 2), F(1, 128), F(1), F(1, 32), F(1, 1024)]          # layer thickness / lateral spacing
+WARP_TAUS_DEC = [F(1, 10), F(1, 20), F(3, 10), F(1, 100)]
+WARP_RATIOS = [F(3, 4), F(7, 8), F(5, 8), F(1, 4), F(13, 16), F(9, 16), F(15, 16), F(1, 2)]       # warp amplitude / layer thickness
+WARP_RATIOS_DEC = [F(7, 10), F(9, 10), F(3, 5), F(2, 10)]
+WARP_STYLES = ['alternating', 'random', 'alternating', 'peak', 'random', 'alternating+inplane', 'random+outer', 'alternating+outer']
+HEX_DIAGS = (((0, 1, 2), (0, 2, 3)), ((0, 1, 3), (1, 2, 3)))     # the two ways of folding a quadrilateral [0, 1, 2, 3] into triangles
+
+
+def hex_cell_flags(P):
+    """exact shape flags of ONE hexahedron with vertices P (Fractions, femio node order):
+    positive   - 6 x volume of femio's decomposition > 0;
+    hull       - the cell is convex in the sense that covers skew faces: its 8 vertices are in convex position and every face is a
+                 face of the convex hull - a planar face as it is, a skew face folded along one of its diagonals (for one diagonal both
+                 triangles have every other cell vertex on their inner side);
+    meanplane  - hypothesis of the theorem C12_hex_sign_meanplane, strict form: the four vertices that are not on the face lie strictly
+                 on the inner side of the plane through the face centre perpendicular to its outward vector area;
+    lever      - max over the faces of (largest distance of a face vertex from the mean plane) / (distance of the cell centre from it):
+                 > 1 means that some point of the face other than its centre would give the wrong sign."""
+    if G.signed('hex', P) <= 0:
+        return {'positive': False, 'hull': False, 'meanplane': False, 'lever': None}
+    cs = tuple(sum(q[k] for q in P) for k in range(3))
+    hull = mean = True
+    lever = F(0)
+    for f in G.FACES['hex']:
+        Q = [P[i] for i in f]
+        rest = [P[i] for i in range(8) if i not in f]
+        fold = False
+        for tris in HEX_DIAGS:
+            good = True
+            for tr in tris:
+                u, v, w = (Q[i] for i in tr)
+                e1, e2 = U.sub(v, u), U.sub(w, u)
+                other = [Q[i] for i in range(4) if i not in tr][0]
+                if U.det3(e1, e2, U.sub(other, u)) > 0 or any(U.det3(e1, e2, U.sub(p, u)) >= 0 for p in rest):
+                    good = False
+            fold = fold or good
+        hull = hull and fold
+        S2 = U.cross(U.sub(Q[2], Q[0]), U.sub(Q[3], Q[1]))                   # outward doubled vector area
+        g = tuple(sum(q[k] for q in Q) for k in range(3))
+        if any(U.dot(tuple(a - 4 * b for a, b in zip(g, p)), S2) <= 0 for p in rest):
+            mean = False
+        den = U.dot(tuple(2 * a - b for a, b in zip(g, cs)), S2)                # 8 (facet centre - cell centre) . S2
+        if den > 0:
+            lever = max(lever, max(2 * abs(U.dot(tuple(4 * a - b for a, b in zip(q, g)), S2)) for q in Q) / den)
+        else:
+            lever = None
+            mean = False
+            break
+    return {'positive': True, 'hull': hull, 'meanplane': mean, 'lever': lever}
+
+
+def warped_flags(m):
+    """per-cell shape flags of a hex mesh on the float64 coordinates femio will hold; {element id: flags}"""
+    pos = {i: tuple(F(float(v)) for v in p) for i, p in m['nodes']}
+    return {e: hex_cell_flags([pos[n] for n in c]) for _, e, c in U.elem_list(m)}
+
+
+def gen_warped(ctx, k, layout=None):
+    """stream `warped-layers` (RULE): nx x ny x nz hexahedra in layers (stacking axis = a random axis after the map) of thickness
+    tau x lateral spacing whose node layers are displaced ALONG the stacking axis by up to `ratio` x layer thickness: the faces between
+    the layers become skew quadrilaterals warped by more than half the cell thickness (lateral faces stay planar unless `+inplane`).
+    Exact integer map, dyadic offset and scale: the coordinates are exact float64 values (style `decimal`: decimal thickness / warp as
+    in engineering input, axis map; the mesh is then DEFINED by the rounded coordinates).  Amplitudes are halved until every cell is
+    positive, hull-convex and mean-plane convex (hex_cell_flags); k = index within the stream."""
+    rng = ctx.rng
+    style = WARP_STYLES[k % len(WARP_STYLES)]
+    decimal = k % 4 == 3
+    big = (not ctx.quick) and k % 5 == 0
+    nx, ny = rng.randint(1, 4 if big else 3), rng.randint(1, 4 if big else 3)
+    nz = rng.choice([2, 2, 3, 4] if big else [2, 2, 3])
+    if decimal:
+        tau, ratio = WARP_TAUS_DEC[(k // 4) % len(WARP_TAUS_DEC)], WARP_RATIOS_DEC[(k // 4) % len(WARP_RATIOS_DEC)]
+    else:
+        tau, ratio = WARP_TAUS[(3 * k // 4) % len(WARP_TAUS)], WARP_RATIOS[k % len(WARP_RATIOS)]
+    sx = [rng.choice([F(1), F(1), F(3, 2), F(2), F(3, 4)]) for _ in range(nx)]
+    sy = [rng.choice([F(1), F(1), F(3, 2), F(2), F(3, 4)]) for _ in range(ny)]
+    h = min(sx + sy)
+    tz = [tau * h * rng.choice([1, 1, 2]) for _ in range(nz)]
+    lx = [sum(sx[:i], F(0)) for i in range(nx + 1)]
+    ly = [sum(sy[:i], F(0)) for i in range(ny + 1)]
+    lz = [sum(tz[:i], F(0)) for i in range(nz + 1)]
+    outer = '+outer' in style
+    layers = [l for l in range(nz + 1) if outer or 0 < l < nz]
+    # one displacement pattern (in units of the amplitude) per warped node layer; `parallel`: the same pattern on all of them
+    parallel = rng.random() < .6
+
+    def pattern():
+        if style.startswith('alternating'):
+            s0 = rng.choice([1, -1])
+            return {(i, j): s0 * (-1) ** (i + j) for i in range(nx + 1) for j in range(ny + 1)}
+        if style.startswith('random'):
+            return {(i, j): F(rng.randint(-2, 2), 2) for i in range(nx + 1) for j in range(ny + 1)}
+        pk = (rng.randint(0, nx), rng.randint(0, ny))                       # `peak`: one displaced node per layer
+        sg = rng.choice([1, -1])
+        return {(i, j): (sg if (i, j) == pk else 0) for i in range(nx + 1) for j in range(ny + 1)}
+    p0 = pattern()
+    pats = {l: (p0 if parallel else pattern()) for l in layers}
+    amp = {l: ratio * min(tz[max(l - 1, 0)], tz[min(l, nz - 1)]) for l in layers}
+    jit = {}
+    if '+inplane' in style:
+        jit = {(i, j, l): (F(rng.randint(-1, 1), 16) * h, F(rng.randint(-1, 1), 16) * h)
+               for i in range(nx + 1) for j in range(ny + 1) for l in range(nz + 1)}
+
+    def idx(x, y, z):
+        return x + (nx + 1) * (y + (ny + 1) * z)
+    cells = [(x, y, z) for z in range(nz) for y in range(ny) for x in range(nx)]
+    if rng.random() < .3 and len(cells) > 2:           # voids / re-entrant boundary shapes
+        cells = rng.sample(cells, rng.randint(max(2, len(cells) // 2), len(cells) - 1))
+    elems = [[idx(x, y, z), idx(x + 1, y, z), idx(x + 1, y + 1, z), idx(x, y + 1, z),
+              idx(x, y, z + 1), idx(x + 1, y, z + 1), idx(x + 1, y + 1, z + 1), idx(x, y + 1, z + 1)] for (x, y, z) in cells]
+    mname = 'axis' if decimal else ['axis', 'shear', '3rot', 'axis', '5rot', '7rot'][(k // 2) % 6]
+    perm, sg = rng.sample(range(3), 3), [rng.choice([1, -1]) for _ in range(3)]
+    M = [[INT_MAPS[mname][r][perm[c]] * sg[c] for c in range(3)] for r in range(3)]
+    off = [F(rng.randint(-64, 64), 8) for _ in range(3)] if rng.random() < .6 else [F(0)] * 3
+    scale = F(2) ** rng.choice([0, 0, -3, 3, -6, 1])
+    shrink = F(1)
+    for attempt in range(7):
+        raw = {}
+        for z in range(nz + 1):
+            for y in range(ny + 1):
+                for x in range(nx + 1):
+                    dx, dy = jit.get((x, y, z), (0, 0))
+                    q = (lx[x] + dx * shrink, ly[y] + dy * shrink,
+                         lz[z] + (shrink * amp[z] * pats[z][(x, y)] if z in pats and attempt < 6 else 0))
+                    v = tuple(scale * (sum(M[r][c] * q[c] for c in range(3)) + off[r]) for r in range(3))
+                    raw[idx(x, y, z)] = tuple(F(float(a)) for a in v)
+        fixed = []
+        for c in elems:
+            if G.signed('hex', [raw[v] for v in c]) < 0:
+                c = [c[i] for i in [0, 3, 2, 1, 4, 7, 6, 5]]
+            fixed.append(c)
+        fl = [hex_cell_flags([raw[v] for v in c]) for c in fixed]
+        if all(f['positive'] and f['hull'] and f['meanplane'] for f in fl):
+            break
+        shrink /= 2
+    exact = decimal is False
+    used = sorted({v for c in fixed for v in c})
+    n_unref = 0
+    if rng.random() < .2:
+        raw[-1] = tuple(a + scale * 40 for a in raw[used[0]])
+        used.append(-1)
+        n_unref = 1
+    small = bool(layout) and any(np.iinfo(np.dtype(layout[w])).max < 2 ** 31 - 1 for w in ('ids', 'conn'))
+    id_list, id_style = G.random_ids(rng, len(used), 'dense' if small else 'pow2' if k % 9 == 8 else None)
+    rng.shuffle(id_list)
+    ids = dict(zip(used, id_list))
+    keys, order = G.order_ids(rng, used, ids)
+    eid_list, _ = G.random_ids(rng, len(fixed), 'dense' if small else rng.choice(['dense', 'sparse', 'large']))
+    rng.shuffle(eid_list)
+    blk = [(eid, [ids[v] for v in c]) for c, eid in zip(fixed, eid_list)]
+    rng.shuffle(blk)
+    return {'kind': 'hex', 'order': order, 'id_style': id_style, 'jittered': True, 'n_unref': n_unref, 'layout': layout,
+            'nodes': [(ids[v], raw[v]) for v in keys], 'blocks': {'hex': blk},
+            'warped': {'style': style, 'map': mname, 'decimal': decimal, 'cells_per_axis': [nx, ny, nz], 'thickness_over_spacing': str(tau),
+                       'warp_over_thickness': str(ratio * shrink if attempt < 6 else 0), 'parallel': parallel, 'coordinates_exact': exact,
+                       'voids': len(cells) < nx * ny * nz}}
+
+
+def vector_closure(ctx, m, obs, case, rows, R):
+    """closure clause on cells with skew faces: the signed area vectors of the facets of a cell sum to zero, where the area vector
+    of a facet is its exact VECTOR area (for a skew quadrilateral 1/2 d1 x d2; equal to area x normal when the facet is planar) in the
+    direction of the returned normal and the sign is the incidence entry.  Exact integer arithmetic: the sum must be (0, 0, 0)."""
+    n = np.array(obs['normals'], dtype=float).reshape(-1, 3)
+    par = np.einsum('ij,ij->i', n, R['unit'])
+    n_cells = 0
+    for i, e in enumerate(obs['cells']):
+        if any(not R['in_range'][j] or abs(par[j]) < 1e-3 for j, _ in rows[i]):
+            ctx.count('warped-layers:cells with a facet whose returned normal gives no orientation (closure not asserted)')
+            continue
+        n_cells += 1
+        tot = [0, 0, 0]
+        for j, v in rows[i]:
+            o = 1 if par[j] > 0 else -1
+            for c in range(3):
+                tot[c] += v * o * R['S2'][j][c]
+        if any(tot):
+            ctx.fail('identity:vector-areas-do-not-sum-to-zero', 'the signed area vectors (sign x exact vector area in the direction of the '
+                     'returned normal) of the facets of a cell do not sum to zero', case,
+                     {'cell': e, 'facets': [(obs['facets'][j], v, 'normal along' if par[j] > 0 else 'normal against',
+                                             [float(x) / 2 for x in R['S2'][j]]) for j, v in rows[i]],
+                      'sum (x 2 x denominator^2)': [str(x) for x in tot]})
+            return False
+    ctx.count('warped-layers:cells with the vector-area closure asserted', n_cells)
+    return True
+
+
+def warped_case(ctx, m, replaying=False):
+    """one case of the stream `warped-layers`: structure clauses (interior facets: opposite signs), vector-area closure on every cell,
+    the exact model's facets / incidence / signs (D tie) and the hypothesis of C12_hex_sign_meanplane evaluated by the model, the
+    planar-face clauses on the exactly planar facets / planar-faced cells"""
+    W = m.get('warped') or {}
+    case = U.mesh_case(m, stream='warped-layers', warped=W, layout=m.get('layout'), jittered=True)
+    flags = warped_flags(m)
+    if not all(f['positive'] and f['hull'] and f['meanplane'] for f in flags.values()):
+        # outside the asserted class (cannot happen for generated meshes; a hand-edited replay file may get here)
+        ctx.count('warped-layers:not positive / hull-convex / mean-plane convex (classified, nothing asserted)')
+        return None
+    if m.get('layout'):
+        _count_layout(ctx, m)
+    key = ('warped', tuple(m['nodes']), tuple((t, tuple((e, tuple(c)) for e, c in b)) for t, b in m['blocks'].items()))
+    obs = U.guarded(ctx, case, key, light_obs, ctx, m, False)
+    if obs is None:
+        return None
+    lever = max(f['lever'] for f in flags.values())
+    n_int = sum(len(G.FACES[t]) for t, _, _ in U.elem_list(m)) - len(obs['facets'])
+    ctx.case(key, sample={**G.describe(m), 'stream': 'warped-layers', **W, 'facets': len(obs['facets']), 'interior_facets': n_int,
+                          'max vertex deviation from the mean plane / distance of the cell centre': float(lever)}
+             if ctx.dist.get('stream:warped-layers', 0) <= 3 else None, nontrivial=n_int > 0 and lever > 1)
+    for lab in ('style', 'map', 'decimal', 'parallel'):
+        ctx.count(f'warped-layers:{lab}:{W.get(lab)}')
+    for lab in ('order', 'id_style'):
+        ctx.count(f'warped-layers:{lab}:{m.get(lab)}')
+    ctx.count('warped-layers:max (vertex deviation from the mean plane) / (distance of the cell centre): '
+              + ('0 (planar)' if lever == 0 else '<= 1/2' if 2 * lever <= 1 else '<= 1' if lever <= 1 else '<= 2' if lever <= 2 else '> 2'))
+    own, seen = [], set()
+    for t, _, c in U.elem_list(m):
+        for f in G.FACES[t]:
+            q = tuple(c[i] for i in f)
+            if tuple(sorted(q)) not in seen:
+                seen.add(tuple(sorted(q)))
+                own.append(q)
+    R0 = exact_ref(m, own)
+    if R0['margin'] <= 1024 * EPS52 * R0['P'] or SIGN_RISK_K * max(R0['sign_risk'].values()) > 1:
+        ctx.count('warped-layers:sign-ill-conditioned (classified, nothing asserted)')
+        return None
+    ctx.count('warped-layers:skew facets', int((~R0['planar']).sum()))
+    n0 = len(ctx.failures)
+    if ctx.driver is not None and len(U.elem_list(m)) <= 60:
+        d0 = len(ctx.disagreements)
+        hyp = correspond(ctx, m, obs, case, False, p_tie=False)
+        ctx.count('warped-layers:model correspondence (facets, incidence, signs)')
+        if hyp is not None and not all(hyp.values()) and len(ctx.disagreements) == d0:
+            ctx.disagree('a theorem hypothesis evaluates to false on a generator-conforming mesh', case, None, hyp)
+        t = C.Toks(ctx.driver.ask('c12.meanplane ' + G.enc_mesh(m)))
+        if t.tok() != 'ok':
+            ctx.disagree('meanplane: model error', case, 'ok', ' '.join(t.t[:3]))
+        else:
+            mp = t.lst(t.nat)
+            want = [int(flags[e]['meanplane']) for _, e, _ in U.elem_list(m)]
+            ctx.count('warped-layers:hyp:mean_plane_convex=' + ('1' if all(mp) else '0'))
+            if mp != want:
+                ctx.disagree('hypothesis of C12_hex_sign_meanplane per cell (model vs exact evaluation of the harness)', case, want, mp)
+    rows = structure_oracle(ctx, m, obs, case)
+    if rows is None:
+        return None
+    pos = {tuple(sorted(q)): j for j, q in enumerate(own)}
+    ix = np.array([pos[tuple(sorted(f))] for f in obs['facets']], dtype=int)
+    # reference in the order of the returned facet rows; the vector area in the orientation of the returned ROW (a row is a cyclic
+    # rotation / the mirror image of the cell's own face: the exact vector area is recomputed from the row itself)
+    R = dict(R0, **{key: R0[key][ix] for key in ('A', 'unit', 'lf', 'in_range', 'planar')})
+    Rr = exact_ref(m, obs['facets'])
+    R['S2'], R['unit'] = Rr['S2'], Rr['unit']
+    if not vector_closure(ctx, m, obs, case, rows, R):
+        return None
+    metric_oracle(ctx, m, obs, case, True, rows, R, label='warped-layers', local=True, planar_mask=R['planar'])
+    return obs if len(ctx.failures) == n0 else None
+
+
 class _Shadow:
     """ctx stand-in for a labelled stream whose classification is open: failures are counted, never reported"""
 
@@ -862,6 +1173,31 @@ def mixed_components_stream(ctx, n):
         if rows is not None:
             metric_oracle(sh, m, obs, None, True, rows)
         ctx.count(f'{label}:{"clauses hold" if not sh.failures else "clauses fail"}')
+
+
+def gen_square(ctx, k):
+    """stream `square-shapes` (inside the quantifier: unreferenced nodes are part of "any mesh"): a generator mesh padded with
+    unreferenced nodes (fresh ids, random storage positions, outside the body) until n_node == n_cell (k even, where the mesh has at
+    least as many cells as nodes: Kuhn tets) or n_node == n_facet - the node-cell and node-facet incidence matrices are then SQUARE,
+    which is where code that infers an axis from a length goes wrong.  Returns None when the mesh has too many nodes already."""
+    kind = 'tet' if k % 4 < 3 else 'hex'
+    m = G.gen_geometric(ctx.rng, kind=kind, max_cells=3 if kind == 'hex' else 2, unref=False, jitter=False)
+    els = U.elem_list(m)
+    n_facet = len({tuple(sorted(c[i] for i in f)) for t, _, c in els for f in G.FACES[t]})
+    target, what = (len(els), 'n_node == n_cell') if k % 2 == 0 and len(els) >= len(m['nodes']) else (n_facet, 'n_node == n_facet')
+    extra = target - len(m['nodes'])
+    if extra < 0:
+        return None
+    have = {i for i, _ in m['nodes']}
+    top = max(have)
+    for j in range(extra):
+        i = top + 1 + j if k % 3 else next(x for x in range(1 + 7 * j, 10 ** 9) if x not in have)
+        have.add(i)
+        m['nodes'].insert(ctx.rng.randint(0, len(m['nodes'])), (i, (F(90 + j), F(95 - 2 * j, 2), F(99))))
+    m['n_unref'] = extra
+    m['order'] = m['order'] + '+padded' if extra else m['order']
+    m['square'] = what
+    return m
 
 
 def correspond(ctx, m, obs, case, planar, p_tie=True):
@@ -973,6 +1309,12 @@ def run(ctx):
     for name, obj in C.corpus_cases(PROP):
         try:
             mm = G.from_json(obj['input']['mesh'])
+            if obj['input'].get('stream') == 'warped-layers':
+                mm['jittered'], mm['warped'], mm['layout'] = True, obj['input'].get('warped') or {}, obj['input'].get('layout')
+                ctx.count('stream:warped-layers')
+                warped_case(ctx, mm)
+                ctx.count('corpus')
+                continue
             mm['jittered'] = obj['input'].get('jittered', False)
             mm['reuse'] = obj['input'].get('reuse', False)
             if obj['input'].get('int_coords'):
@@ -1005,6 +1347,11 @@ def run(ctx):
         if k % 3 == 2:
             m['layout'] = layout_for(k // 3 + 1)
         one_case(ctx, m)
+    for k in range(ctx.n(8, 80)):
+        m = gen_square(ctx, k)
+        if m is not None:
+            ctx.count('stream:square-shapes:' + m['square'])
+            one_case(ctx, m)
     # ---- the main-loop meshes at another absolute scale / far from the origin (inside the quantifier: "any size"); drawn last
     for stream, draw in (('absolute-scale', draw_scale), ('far-offset', draw_offset)):
         for j, (m, obs) in enumerate(bases[stream]):
@@ -1019,6 +1366,12 @@ def run(ctx):
         ctx.count('stream:extreme-geometry')
         extreme_case(ctx, gen_extreme(ctx, k, layout_for(k // 3 + 2) if k % 3 == 0 else None))
     ctx.extra['extreme_geometry_wall_s'] = round(time.time() - t_ext, 2)
+    # ---- hexahedra with skew faces warped by a large fraction of the cell thickness (inside the quantifier, see ASSUMPTIONS); drawn last
+    t_w = time.time()
+    for k in range(ctx.n(32, 320) if ctx.driver is not None else ctx.n(64, 480)):
+        ctx.count('stream:warped-layers')
+        warped_case(ctx, gen_warped(ctx, k, layout_for(k // 5 + 1) if k % 5 == 4 else None))
+    ctx.extra['warped_layers_wall_s'] = round(time.time() - t_w, 2)
     mixed_components_stream(ctx, ctx.n(2, 20))
     ctx.extra['conditioning'] = {'C': C_COND, 'unit': '2^-52 * max(|p| / h, 1) * h^d', 'raw_normal_min': RAW_NORMAL_MIN,
                                  'largest_observed_deviation_over_tolerance': {k: round(v, 6) for k, v in sorted(WORST.items())}}
@@ -1036,6 +1389,17 @@ def replay(ctx, obj):
             variant_case(ctx, obj['input']['stream'], base, obs0, obj['input']['transform'])
         return {'describe': G.describe(base), 'stream': obj['input']['stream'], 'transform': obj['input']['transform'],
                 'failures': [{'signature': f['signature'], 'what': f['what'], 'observed': f['observed']} for f in ctx.failures[n0:]],
+                'fails': len(ctx.failures) > n0}
+    if obj['input'].get('stream') == 'warped-layers':
+        m = G.from_json(obj['input']['mesh'])
+        m['jittered'], m['warped'], m['layout'] = True, obj['input'].get('warped') or {}, obj['input'].get('layout')
+        n0, d0 = len(ctx.failures), len(ctx.disagreements)
+        warped_case(ctx, m, replaying=True)
+        fl = warped_flags(m)
+        return {'describe': G.describe(m), 'stream': 'warped-layers', 'warped': m['warped'],
+                'cells positive / hull-convex / mean-plane convex': [all(f[q] for f in fl.values()) for q in ('positive', 'hull', 'meanplane')],
+                'failures': [{'signature': f['signature'], 'what': f['what'], 'observed': f['observed']} for f in ctx.failures[n0:]],
+                'model_disagreements': [{'what': d['what'], 'impl': d['impl'], 'model': d['model']} for d in ctx.disagreements[d0:]],
                 'fails': len(ctx.failures) > n0}
     if obj['input'].get('stream') == 'extreme-geometry':
         m = G.from_json(obj['input']['mesh'])
